@@ -37,7 +37,7 @@ def run_harness(hbin, seed, tier, only=None, cases=None):
     if p.returncode != 0:
         raise RuntimeError("psbt engine failed (exit %s): %s" % (p.returncode, p.stderr[-2000:]))
     out = {"inp": {}, "case": {}, "desc": {}, "hist": [], "probe_viol": [], "summary": None, "mall": None,
-           "gen_error": [], "plans": 0, "pkh": [], "keyhash": [], "pkhtap": [], "xl": []}
+           "gen_error": [], "plans": 0, "pkh": [], "keyhash": [], "pkhtap": [], "xl": [], "tl": set()}
     for line in p.stdout.splitlines():
         if not line:
             continue
@@ -55,6 +55,8 @@ def run_harness(hbin, seed, tier, only=None, cases=None):
             out["probe_viol"].append(d)
         elif t == "pkh":
             out["pkh"].append((d["inp"], d["h"], d["r"]))
+        elif t == "tl":
+            out["tl"].add((d["k"], d["ver"], d["lt"], d["seq"], d["n"], d["r"]))
         elif t == "pkhtap":
             out["pkhtap"].append((d["inp"], d["h"], d["r"]))
         elif t == "xl":
@@ -337,6 +339,11 @@ def build_gen(data, hists):
     for (iid, h, r) in data["pkh"]:
         used_inputs_extra.add(iid)
         pkh_rows.append("(i%d,%d,%s)" % (iid, g.I(h), copt(None if r is None else g.I(r))))
+    tl_rows = ["(%d,%d,%d,%d,%d,%s)" % (k, ver, lt, sq, n, cbool(r)) for (k, ver, lt, sq, n, r) in sorted(data["tl"])]
+    for n in range(0, max(len(tl_rows), 1), 1500):
+        out.append("Definition tl_obs_%d : list (N * N * N * N * N * bool) := [%s]." % (n // 1500, ";".join(tl_rows[n:n + 1500])))
+    out.append("Definition tl_obs : list (N * N * N * N * N * bool) := %s." % " ++ ".join(
+        "tl_obs_%d" % (n // 1500) for n in range(0, max(len(tl_rows), 1), 1500)))
     out.append("Definition pkh_tab : list (N * N) := %s." % cmap(set((g.I(k), g.I(h)) for k, h in data["keyhash"])))
     out.append("Definition xl_tab : list (N * N) := %s." % cmap(set((g.I(k), g.I(x)) for k, x in data["xl"])))
     tap_rows = ["(i%d,%d,%s)" % (iid, g.I(h), copt(None if r is None else g.I(r))) for (iid, h, r) in data["pkhtap"]]
@@ -358,7 +365,7 @@ def build_gen(data, hists):
     meta = {"tries": n_tries, "distinct_try_keys": len(global_try), "conflicts": conflicts, "unstable": unstable,
             "inputs_defined": len(used_inputs), "mall_false": mall_false, "mall_true": mall_true,
             "keep_unknown": bool(mp.get("keeps_unknown", False)),
-            "interned_values": len(g.I.ids), "pkh_rows": len(data["pkh"]) + len(data["pkhtap"])}
+            "interned_values": len(g.I.ids), "pkh_rows": len(data["pkh"]) + len(data["pkhtap"]), "tl_rows": len(data["tl"])}
     return "\n".join(out) + "\n", meta
 
 
@@ -447,6 +454,15 @@ def directed_search(rep, hbin, seed, tier):
     return found
 
 
+def tl_theorem_failed(c2):
+    """PsbtCasesCheck.v prints (rows, failing rows) of the time-lock table before its theorem."""
+    m = re.findall(r"=\s*\((\d+)%nat,\s*(\d+)%nat\)", c2.stdout) or re.findall(r"=\s*\((\d+),\s*(\d+)\)", c2.stdout)
+    for a, b in m:
+        if int(b) > 0:
+            return True
+    return False
+
+
 def parse_diag(text):
     m = re.search(r"=\s*(\[.*?\])\s*:\s*list \(N \* nat \* N\)", text, flags=re.S)
     if not m:
@@ -492,7 +508,13 @@ def run(rep, tier, seed, replay):
             c3 = vlib.coqc("Tables/PsbtCasesDiag.v", timeout=1500)
             diag = parse_diag(c3.stdout) if c3.returncode == 0 else None
             by_id = dict((h["id"], h) for h in hists)
-            if diag == []:   # every history agrees: the other theorem of the file is the one that failed
+            if diag == [] and tl_theorem_failed(c2):
+                rep.violation("tie:timelock-predicates",
+                              "PsbtInputSatisfier::check_after / check_older of the compiled code differ from the model's "
+                              "psbt_check_after / psbt_check_older (= BIP65 / BIP68+112 on this input's nSequence) on some tabulated row",
+                              {"property": PID, "broken_tie": "timelock_predicates_match_model (Tables/PsbtCasesCheck.v)",
+                               "log": (c2.stdout + c2.stderr)[-1500:]}, False)
+            elif diag == []:   # every history agrees: the raw-pkh theorem is the one that failed
                 rep.violation("tie:raw-pkh-resolution",
                               "the compiled Placeholder::PubkeyHash completion (key behind a raw key hash: bip32_derivation, else the "
                               "partial signature carrying it) differs from the model's resolve_pkh on some tabulated input state",
@@ -568,6 +590,8 @@ def run(rep, tier, seed, replay):
         "finalized_input_keeps_unknown_fields": meta["keep_unknown"],
         "mall_probe": data["mall"],
         "raw_pkh_resolution_rows_compared_in_coq": meta["pkh_rows"],
+        "timelock_predicate_rows_compared_in_coq": meta["tl_rows"],
+        "direct_satisfier_calls": s.get("direct_satisfier_calls"), "direct_satisfier_witnesses_verified": s.get("direct_satisfier_witnesses_verified"),
         "key_origin_histories": dict((k, v) for k, v in collections.Counter(h["kind"] for h in data["hist"]).items() if "key-origins" in k),
         "observations_not_violations": dict(data.get("observations", {})),
         "observation_examples": data.get("observation_example", {}),
